@@ -3,6 +3,7 @@
 package main
 
 import (
+	"strings"
 	"context"
 	"fmt"
 	"runtime/debug"
@@ -27,7 +28,28 @@ func (nullWriter) Write(_ log.Message) error { return nil }
 func (nullWriter) Rotate()                   {}
 func (nullWriter) Close() error              { return nil }
 
-func quietLogger() log.Logger { return log.NewLogger(log.LevelError, nullWriter{}) }
+// slowLogMs > 0 (engine -slowlog): the configuration asks for step outputs to be logged (config.LoggedOutputConfigs) and the
+// log destination is slow for exactly those lines, as a slow / blocking log sink would be.  A pure delay inside the logger
+// must not change what a run computes.
+var slowLogMs int
+
+type slowWriter struct{}
+
+func (slowWriter) Write(m log.Message) error {
+	if slowLogMs > 0 && strings.HasPrefix(m.Message, "Output ID for step") {
+		time.Sleep(time.Duration(slowLogMs) * time.Millisecond)
+	}
+	return nil
+}
+func (slowWriter) Rotate()      {}
+func (slowWriter) Close() error { return nil }
+
+func quietLogger() log.Logger {
+	if slowLogMs > 0 {
+		return log.NewLogger(log.LevelWarning, slowWriter{})
+	}
+	return log.NewLogger(log.LevelError, nullWriter{})
+}
 
 var localDeployers = map[string]any{
 	"builtin": map[string]any{"deployer_name": "scripted"},
@@ -38,10 +60,17 @@ func scriptedDeployerRegistry() deployerregistry.Registry {
 }
 
 func engineConfig() *config.Config {
-	return &config.Config{
+	cfg := &config.Config{
 		LocalDeployers: localDeployers,
 		Log:            log.Config{Level: log.LevelError, Destination: log.DestinationStdout},
 	}
+	if slowLogMs > 0 {
+		cfg.LoggedOutputConfigs = map[string]*config.StepOutputLogConfig{}
+		for _, id := range []string{"success", "error", "alt", "started", "resolved", "output", "result"} {
+			cfg.LoggedOutputConfigs[id] = &config.StepOutputLogConfig{LogLevel: log.LevelWarning}
+		}
+	}
+	return cfg
 }
 
 // installScriptedEngine points the engine's package-level deployer registry at the scripted deployer.
